@@ -1000,9 +1000,11 @@ class DimEval:
     """usize / bool expressions over `X.dimensions`, `X.dimensions.len()` and Boolean flags, for operands of rank >= 2:
     values ('int', n) | ('dimR', X, k) = X.dimensions[len - k] | ('len', X) | ('bool', b) | ('unk', why)"""
 
-    def __init__(self, facts, lets, flags, names, ranks=None, eq=None):
+    def __init__(self, facts, lets, flags, names, ranks=None, eq=None, unknown_as=None):
         self.facts, self.lets, self.flags, self.names = facts, lets, flags, names
         self.busy = set()
+        self.unknown_as = unknown_as    # the truth assumed for a condition this evaluator cannot decide (None: give up)
+        self.assumed = []
         self.ranks = ranks          # {'A': n, 'B': m}: rank comparisons are decided for these ranks (any rank >= 1)
         self.eq = eq                # callable(l, r) -> bool | None: the truth assumed for an equality between two dimensions
 
@@ -1087,6 +1089,9 @@ class DimEval:
             r = self.ev(e["r"], depth + 1)
             if l[0] == "bool" and r[0] == "bool":
                 return ("bool", (l[1] and r[1]) if e["op"] == "And" else (l[1] or r[1]))
+            if l[0] == "bool" and r[0] == "unk" and self.unknown_as is not None:
+                self.assumed.append(show(e["r"])[:60])
+                return ("bool", self.unknown_as)
             if l[0] == "bool":
                 return r
             return ("unk", "logical operation")
@@ -1211,6 +1216,24 @@ def r38_matmul_shapes(facts):
                     else:
                         other = v
                 inst = "leading-dims:%s" % name
+                if other is not None:
+                    # part of the choice is not about ranks: evaluate it both ways
+                    alt = {}
+                    seen_cond = None
+                    for assume in (True, False):
+                        ch2 = {}
+                        for ra, rb in itertools.product((1, 2, 3, 4), repeat=2):
+                            de2_ = DimEval(facts, lets, {flagv["A"]: False, flagv["B"]: False}, names, ranks={"A": ra, "B": rb}, unknown_as=assume)
+                            v2 = de2_.ev(n["args"][3])
+                            if v2[0] == "dimsof":
+                                ch2[(ra, rb)] = v2[1]
+                            if de2_.assumed:
+                                seen_cond = seen_cond or de2_.assumed[0]
+                        alt[assume] = ch2
+                    if seen_cond and len(alt[True]) == 16 and len(alt[False]) == 16 and alt[True] != alt[False]:
+                        c.bad(inst + "#value-dependent", F.loc(b, n), "which operand's dimensions the operands are broadcast to depends on `%s`, not only on the ranks: for some operands of equal rank the "
+                              "target comes from the one with the unit batch and compatible shapes are refused" % seen_cond)
+                        continue
                 if other is not None or not chooser:
                     tgt = strip(n["args"][3])
                     hops = 0
@@ -2258,11 +2281,48 @@ def r49_addend_coverage(facts):
                 continue
             short = None
             why = None
+            # conditions between the closure's entry and the copy: a captured Boolean ("a term was given") is true here; anything about the
+            # term's slice is evaluated for the shape at hand
+            site_ctx = None
+            for n_, ctx_ in F.walk_ctx(root):
+                if n_ is site:
+                    site_ctx = ctx_
+
+            def cond_val(e, env, depth=0):
+                e = strip(e)
+                if not isinstance(e, dict) or depth > 8:
+                    raise _ItAbstain("condition")
+                k = e.get("k")
+                if k in ("VarRef", "UpvarRef") and (e.get("ty") or "") == "bool":
+                    return True
+                if k == "Literal" and isinstance(lit_value(e), bool):
+                    return lit_value(e)
+                if k == "LogicalOp":
+                    a = cond_val(e["l"], env, depth + 1)
+                    if e["op"] == "And" and not a:
+                        return False
+                    if e["op"] == "Or" and a:
+                        return True
+                    return cond_val(e["r"], env, depth + 1)
+                if k == "Unary" and e.get("op") == "Not":
+                    return not cond_val(e["e"], env, depth + 1)
+                if k == "Binary" and e.get("op") in ("Eq", "Ne", "Lt", "Le", "Gt", "Ge"):
+                    a, b_ = num(e["l"], env), num(e["r"], env)
+                    return {"Eq": a == b_, "Ne": a != b_, "Lt": a < b_, "Le": a <= b_, "Gt": a > b_, "Ge": a >= b_}[e["op"]]
+                raise _ItAbstain("condition `%s`" % show(e)[:40])
             try:
                 for rows_ in (1, 2, 3):
                     for cols_ in (1, 2, 3):
                         for lc in sorted({1, cols_, rows_ * cols_}):
                             env = {"rows": rows_, "cols": cols_, "lc": lc}
+                            reached = True
+                            for cond_, truth_ in (F.path_facts(site_ctx) if site_ctx is not None else []):
+                                if cond_val(cond_, env) != truth_:
+                                    reached = False
+                            if not reached:
+                                if short is None:
+                                    short = (rows_, cols_, lc, 0)
+                                continue
                             pipe = it(site["args"][0], env)
                             cnt, sz = count_of(pipe), out_size(pipe)
                             if sz is None:
